@@ -441,7 +441,7 @@ def generate(rng, tier):
         keys, pays = [0, 1, 2], [0, 1]
         insts = op_instances(u, keys, pays, typed)
         for init in states(keys, pays, 2 if quick else 3):
-            st = 16 if quick else (2 if len(init) < 3 else 16)
+            st = 16 if quick else (3 if len(init) < 3 else 24)
             for op in insts[rng.randrange(st)::st]:
                 cases.append((u, typed, enf, init, [op], "exh1"))
     # depth 2 over a smaller universe
@@ -449,10 +449,10 @@ def generate(rng, tier):
         keys, pays = [0, 1], [0, 1]
         insts = op_instances(u, keys, pays, typed)
         for init in states(keys, pays, 2):
-            for _ in range(6 if quick else 160):
+            for _ in range(6 if quick else 120):
                 cases.append((u, typed, enf, init, [rng.choice(insts), rng.choice(insts)], "exh2"))
     # random longer sequences over 5 keys x 3 payloads
-    n_rand = 4800 if quick else 120000
+    n_rand = 4800 if quick else 80000
     for i in range(n_rand):
         u, typed, enf = configs[i % len(configs)]
         init, ops = random_case(rng, u, typed, 8 if quick else 16)
@@ -730,7 +730,7 @@ def main(tier, replay=None):
         "evaluations": len(cases), "distinct_nontrivial": len(distinct),
         "rule": "case = (universe, typed, enforce_item_equivalence, initial items, operation list); depth-1: every state "
                 "of <=2 (thorough <=3) items of 3 keys x 2 payloads x a stride through every operation instance "
-                "(quick: every 16th; thorough: every 2nd for <=2 items, every 16th for 3), sampled depth-2, random "
+                "(quick: every 16th; thorough: every 3rd for <=2 items, every 24th for 3), sampled depth-2, random "
                 "sequences of <=8/16 operations over 5 keys x 3 payloads; distinct = distinct tuples; every case has >=1 operation",
         "samples": [dict(universe=c[0], typed=c[1], enforce=c[2], init=c[3], ops=c[4]) for c in pick],
         "exhaustive": False,
